@@ -67,6 +67,7 @@ FIXED = [
  ("C13", "subdivision blocks leave the mesh that was passed in equal to the result", "the mesh object passed to SurfaceSubdivision / VolumeSubdivision / split_double_boundary_edges_triangles was left half-updated (faces without corners) or with connectivity and border caches describing the old mesh"),
  ("C13", "split_tet_from_face_center reads cell adjacency from the current cells", "second volume operation of an editing block used the face->cells table computed on entry: wrong cell split (volume changed) or KeyError"),
  ("C13", "quads are not split along a diagonal that is already an edge", "triangulating a quad whose B-D diagonal is already an edge of the mesh produced an edge with 3-4 incident faces (non-manifold result)"),
+ ("C04", "medit export writes all edges when no face or cell is exported", "save(surface, 'x.mesh', ignore_elements={'faces'}) wrote only the hard edges (none): the wireframe reloaded as a point cloud"),
  ("C14", "circumcenter lies in the plane", "geometry.circumcenter dropped the normal offset of the triangle's plane (dual_mesh circumcenter mode put vertices in the wrong plane)"),
 ]
 
